@@ -14,6 +14,7 @@ import (
 	"strconv"
 	"strings"
 
+	"golang.org/x/tools/go/ast/astutil"
 	"golang.org/x/tools/go/packages"
 	"golang.org/x/tools/go/ssa"
 	"golang.org/x/tools/go/ssa/ssautil"
@@ -357,53 +358,48 @@ func (g *Group) Load() error {
 					continue
 				}
 				changed := false
-				ast.Inspect(af, func(n ast.Node) bool {
-					call, ok := n.(*ast.CallExpr)
-					if !ok {
-						return true
-					}
-					sel, ok := call.Fun.(*ast.SelectorExpr)
-					if !ok {
-						return true
-					}
-					obj, ok := p.TypesInfo.Uses[sel.Sel].(*types.Func)
-					if !ok {
-						return true
-					}
-					full := obj.FullName()
-					to, ok := want[full]
-					if !ok {
-						return true
-					}
-					used[full] = true
-					g.Rewrites = append(g.Rewrites, Rewrite{File: strings.TrimPrefix(fname, repoRoot()+"/"), Line: p.Fset.Position(call.Pos()).Line, From: full, To: to})
-					sig := obj.Type().(*types.Signature)
-					if sig.Recv() != nil {
-						call.Args = append([]ast.Expr{sel.X}, call.Args...)
-					}
-					call.Fun = ast.NewIdent(to)
-					changed = true
-					return true
-				})
-				// function values (not calls) of package-level functions
-				ast.Inspect(af, func(n ast.Node) bool {
-					switch x := n.(type) {
+				astutil.Apply(af, func(cur *astutil.Cursor) bool {
+					switch n := cur.Node().(type) {
 					case *ast.CallExpr:
-						for i, a := range x.Args {
-							if sel, ok := a.(*ast.SelectorExpr); ok {
-								if obj, ok := p.TypesInfo.Uses[sel.Sel].(*types.Func); ok {
-									if to, ok := want[obj.FullName()]; ok && obj.Type().(*types.Signature).Recv() == nil {
-										x.Args[i] = ast.NewIdent(to)
-										used[obj.FullName()] = true
-										g.Rewrites = append(g.Rewrites, Rewrite{File: strings.TrimPrefix(fname, repoRoot()+"/"), Line: p.Fset.Position(sel.Pos()).Line, From: obj.FullName(), To: to})
-										changed = true
-									}
-								}
-							}
+						// method call x.M(args) -> to(x, args)
+						sel, ok := n.Fun.(*ast.SelectorExpr)
+						if !ok {
+							return true
 						}
+						obj, ok := p.TypesInfo.Uses[sel.Sel].(*types.Func)
+						if !ok {
+							return true
+						}
+						sig := obj.Type().(*types.Signature)
+						if sig.Recv() == nil {
+							return true // package-level functions are handled as selector expressions below
+						}
+						to, ok := want[obj.FullName()]
+						if !ok {
+							return true
+						}
+						used[obj.FullName()] = true
+						g.Rewrites = append(g.Rewrites, Rewrite{File: strings.TrimPrefix(fname, repoRoot()+"/"), Line: p.Fset.Position(n.Pos()).Line, From: obj.FullName(), To: to})
+						n.Args = append([]ast.Expr{sel.X}, n.Args...)
+						n.Fun = ast.NewIdent(to)
+						changed = true
+					case *ast.SelectorExpr:
+						// any reference (call or value) to a package-level function
+						obj, ok := p.TypesInfo.Uses[n.Sel].(*types.Func)
+						if !ok || obj.Type().(*types.Signature).Recv() != nil {
+							return true
+						}
+						to, ok := want[obj.FullName()]
+						if !ok {
+							return true
+						}
+						used[obj.FullName()] = true
+						g.Rewrites = append(g.Rewrites, Rewrite{File: strings.TrimPrefix(fname, repoRoot()+"/"), Line: p.Fset.Position(n.Pos()).Line, From: obj.FullName(), To: to})
+						cur.Replace(ast.NewIdent(to))
+						changed = true
 					}
 					return true
-				})
+				}, nil)
 				if changed {
 					var buf bytes.Buffer
 					if err := format.Node(&buf, p.Fset, af); err != nil {
